@@ -5,6 +5,8 @@ package main
 
 import (
 	"bytes"
+	"go/parser"
+	"go/token"
 	"io"
 	"log"
 	"encoding/json"
@@ -13,6 +15,7 @@ import (
 	"os"
 	"path/filepath"
 	"sort"
+	"strconv"
 	"strings"
 
 	"github.com/koykov/inspector"
@@ -278,6 +281,59 @@ func phaseMain(root string) {
 	must(os.WriteFile(filepath.Join(root, "alive.txt"), []byte(strings.Join(alive, "\n")+"\n"), 0644))
 }
 
+// phaseFacts extracts from the generated inspector files (committed, regenerated testobj, grammar slice)
+// the facts the Lean side re-checks on every run: their distinct import sets.
+func phaseFacts(root string) {
+	dirs := []string{"/repo/testobj_ins", filepath.Join(root, "fresh", "testobj_ins"), filepath.Join(root, "decl_ins")}
+	sets := map[string]bool{}
+	n := 0
+	fset := token.NewFileSet()
+	for _, d := range dirs {
+		ents, err := os.ReadDir(d)
+		if err != nil {
+			continue
+		}
+		for _, e := range ents {
+			if !strings.HasSuffix(e.Name(), "_ins.go") {
+				continue
+			}
+			f, err := parser.ParseFile(fset, filepath.Join(d, e.Name()), nil, parser.ImportsOnly)
+			if err != nil {
+				continue
+			}
+			var imps []string
+			for _, im := range f.Imports {
+				imps = append(imps, im.Path.Value)
+			}
+			sort.Strings(imps)
+			sets[strings.Join(imps, " ")] = true
+			n++
+		}
+	}
+	var keys []string
+	for k := range sets {
+		keys = append(keys, k)
+	}
+	sort.Strings(keys)
+	var sb strings.Builder
+	sb.WriteString("-- regenerated on every run (gengram -phase facts): distinct import sets of the generated inspector files\nnamespace Inspector\n")
+	sb.WriteString("def generatedImportSets : List (List String) := [\n")
+	for i, k := range keys {
+		var q []string
+		for _, im := range strings.Fields(k) {
+			q = append(q, strconv.Quote(im))
+		}
+		sep := ","
+		if i == len(keys)-1 {
+			sep = ""
+		}
+		sb.WriteString("  [" + strings.Join(q, ", ") + "]" + sep + "\n")
+	}
+	sb.WriteString("]\ndef generatedFilesScanned : Nat := " + strconv.Itoa(n) + "\nend Inspector\n")
+	must(os.MkdirAll(filepath.Join(root, "extracted"), 0755))
+	must(os.WriteFile(filepath.Join(root, "extracted", "Imports.lean"), []byte(sb.String()), 0644))
+}
+
 func main() {
 	log.SetOutput(io.Discard) // the compiler logs gofmt failures under Force
 	root := flag.String("root", "", "work directory of the generated module")
@@ -293,5 +349,6 @@ func main() {
 		phaseGenerate(*root, *tier, *seed)
 	case "main":
 		phaseMain(*root)
+		phaseFacts(*root)
 	}
 }
